@@ -18,7 +18,7 @@ CLAIMS = {
   'text': ('PARTIAL. The contiguous / view / transpose sequences of DPMultiheadAttention.forward (head split of q, k, v; head merge for batch_first False and True) are regenerated from the '
            'source as operation lists over symbolic extents and interpreted by a division-free row-major index semantics: proved for ALL L, B, H, head_dim that head (b*H+h, l, d) is '
            'projection entry (l, b, h*head_dim+d), that the merged output entry (l, b, h*head_dim+d) -- (b, l, .) for batch_first -- is head entry (b*H+h, l, d), that these source indices are '
-           'unique, and that merge inverts split. The same generated sequences are applied by torch to index-coded tensors and the theorem statements checked entry by entry; scaling, score, mask '
+           'unique, and that merge inverts split; and, composing them (C14_attention_core), that the whole attention core -- q scaled, heads split, scores = q k^T + additive masks, a row-local softmax, weighted sum of v, heads merged -- yields for entry (l, b, h*head_dim+d) exactly head h of sample b attending with its own feature slice of Q, K, V, in both layouts, for arbitrary ring operations and every additive term. The same generated sequences are applied by torch to index-coded tensors and the theorem statements checked entry by entry; scaling, score, mask '
            'guards / fill / padding and weight averaging are pinned. Outputs, averaged weights, parameter gradients and state_dict round trips are compared with nn.MultiheadAttention over '
            'heads x bias x add_bias_kv x add_zero_attn x kdim/vdim x batch_first x lengths x 2-D / 3-D bool / float masks x key padding (not proved: softmax / bmm / linear kernels). Three '
            'defects found this way were repaired (batch_first head merge, batch_first mask guard, embed_dim = 1 with bias_kv).'),
